@@ -3,6 +3,7 @@
   /repo/logger/{json_handler,level}.go are what the theorems assume them to be.
   Re-proved by `decide` on every run; a changed table entry breaks this file.
 -/
+import Glb.Generated.StatusLogger
 import Glb.Model.JsonHandler
 import Glb.Spec.Json
 
@@ -51,5 +52,8 @@ theorem validLevel_iff (l : Int) : Json.validLevel l = true ↔
   simp [Json.validLevel, Generated.levelDebug, Generated.levelInfo, Generated.levelWarn,
     Generated.levelError, Generated.levelFatal]
   omega
+
+/-- the extractor of this area recognised the source as it is on this run (a refusal removes `ok`) -/
+theorem extractor_ok : Glb.Generated.StatusLogger.ok = () := rfl
 
 end Glb.Tie.Logger
